@@ -892,6 +892,34 @@ def svrp_technician_counter(ctx: Ctx):
            construct="SVRPEnv._get_reward:row-switch-order")
 
 
+def mdcpdp_one_metric(ctx: Ctx):
+    """C03.h MDCPDP measures every leg with the env's configurable metric (`self.get_distance`, L1 or L2 by `dist_mode`): the
+    legs accumulated in `_step` and the closing leg added in `_get_reward` are parts of ONE length.  A module-level Euclidean
+    helper or an inline norm in either method gives a mixed-metric objective for `dist_mode="L1"` (identical values for L2)."""
+    import ast
+    cls = ctx.repo.get_class("rl4co/envs/routing/mdcpdp/env.py", "MDCPDPEnv")
+    n_own = 0
+    foreign = []
+    for meth in ("_step", "_get_reward"):
+        fi = cls.methods.get(meth)
+        if fi is None:
+            raise AnalysisError(f"MDCPDPEnv.{meth} not found")
+        ctx.fn(fi)
+        for c in ast.walk(fi.node):
+            if not isinstance(c, ast.Call):
+                continue
+            f = c.func
+            if isinstance(f, ast.Attribute) and f.attr == "get_distance" and isinstance(f.value, ast.Name) and f.value.id == "self":
+                n_own += 1
+            elif (isinstance(f, ast.Name) and f.id in ("get_distance", "get_tour_length", "get_distance_matrix")) or \
+                    (isinstance(f, ast.Attribute) and f.attr in ("norm", "cdist", "pairwise_distance") and "loc" in ast.unparse(c)):
+                foreign.append((meth, c))
+    ok = n_own >= 2 and not foreign
+    ctx.ob("C03.h", "MDCPDPEnv:one-metric-for-all-legs", ok, "rl4co/envs/routing/mdcpdp/env.py",
+           f"{n_own} leg(s) measured with self.get_distance; legs measured some other way: " + (", ".join(f"{m}: {ast.unparse(c)[:50]}" for m, c in foreign[:2]) or "none"),
+           construct="MDCPDPEnv:leg-metric")
+
+
 def flp_min_axis(ctx: Ctx):
     """C03.e FLP: `min over the chosen facilities` is a reduction over axis 1 of a [B, k, n] tensor.  gather_by_index drops the
     gathered axis when exactly one index is gathered (k = 1), so the operand's rank must be fixed explicitly (view / reshape to
@@ -1026,6 +1054,7 @@ def run(ctx: Ctx):
                 check_terms(ctx, env, sl, sel, val, terms)
     incremental(ctx)
     flp_min_axis(ctx)
+    mdcpdp_one_metric(ctx)
     mcp_covered_indicator(ctx)
     svrp_technician_counter(ctx)
 
